@@ -73,7 +73,7 @@ func reentrantOps() []nohb.Op {
 				if e.idx != extraField {
 					name = fields[e.idx].name
 				}
-				d1op(fmt.Sprintf("%s alternative %d", name, a), []choice{{f, a}})
+				d1op(fmt.Sprintf("%s alternative %d", name, a), []choice{{F: f, A: a}})
 				break
 			}
 		}
@@ -85,7 +85,7 @@ func reentrantOps() []nohb.Op {
 			for a, al := range e.alts {
 				if al.Full {
 					if seen == k {
-						ch = append(ch, choice{f, a})
+						ch = append(ch, choice{F: f, A: a})
 					}
 					seen++
 				}
